@@ -187,6 +187,7 @@ func runC32(rc *sk.RunCtx) {
 				return
 			}
 			allowLo, allowHi = lo2, hi2
+			A.spec = &spec // later reloads build on this configuration
 			rc.Count("op.reload_firewall", 1)
 		})
 	}
@@ -198,6 +199,29 @@ func runC32(rc *sk.RunCtx) {
 			stalls = append(stalls, [2]time.Duration{mw.now, mw.now + d})
 		})
 		total += d
+	}
+	// the peer's known address list changes while the handshake is pending (a reload adds an unreachable second
+	// static address): the attempt counter and the backoff must carry on
+	if tp.Chance(1, 3) {
+		nch := 1 + tp.Choose(3)
+		for c := 0; c < nch; c++ {
+			at := t0 + time.Duration(tp.Choose(int(total/time.Millisecond)+1))*time.Millisecond
+			extraAddr := fmt.Sprintf("10.99.0.%d:4242", 10+c)
+			mw.at(at, "peer address list changes", func() {
+				spec := *A.spec
+				spec.static = map[string][]string{}
+				for k, v := range A.spec.static {
+					spec.static[k] = append([]string(nil), v...)
+				}
+				spec.static[addrB.String()] = append(spec.static[addrB.String()], extraAddr)
+				if err := A.reload(spec.configYAML()); err != nil {
+					rc.HarnessError("reload: %v", err)
+					return
+				}
+				A.spec = &spec
+				rc.Count("op.reload_static_addresses", 1)
+			})
+		}
 	}
 	end := t0 + total + 10*tryI + 2*time.Second
 	mw.runUntil(end)
